@@ -37,22 +37,26 @@ def World.req (w : World) (r : Nat) : Req := (w.reqs.get? r).getD default
 /-- `self.addr` of protocol `p` -/
 def World.paddr (w : World) (p : Nat) : Nat := (w.proto p).addr
 
+/-! pure (never raising) primitives as plain functions on worlds -/
+def World.emit (w : World) (o : Obs) : World := { w with log := w.log ++ [o] }
+def World.setReq (w : World) (r : Nat) (f : Req → Req) : World := { w with reqs := w.reqs.set r (f (w.req r)) }
+def World.setEnts (w : World) (f : List Ent → List Ent) : World := { w with ents := f w.ents }
+/-- `reactor.callLater(delay, ...)`: the world with a new pending DelayedCall, and its id -/
+def World.callLater (w : World) (delay : Rat) (kind : TKind) : World × Nat :=
+  ({ w with timers := w.timers.set w.nextTimer ⟨w.now + ticks delay, kind, .pending⟩, nextTimer := w.nextTimer + 1 }, w.nextTimer)
+
 def setProto (p : Nat) (f : Proto → Proto) : Step :=
   Step.mod fun w => { w with protos := w.protos.set p (f (w.proto p)) }
-def setReq (r : Nat) (f : Req → Req) : Step :=
-  Step.mod fun w => { w with reqs := w.reqs.set r (f (w.req r)) }
-def setEnts (f : List Ent → List Ent) : Step := Step.mod fun w => { w with ents := f w.ents }
+def setReq (r : Nat) (f : Req → Req) : Step := Step.mod fun w => w.setReq r f
+def setEnts (f : List Ent → List Ent) : Step := Step.mod fun w => w.setEnts f
 
-def emit (o : Obs) : Step := Step.mod fun w => { w with log := w.log ++ [o] }
+def emit (o : Obs) : Step := Step.mod fun w => w.emit o
 
 /-! ### runtime primitives (modelled, not verified) -/
 
 /-- `reactor.callLater(delay, ...)`: a new pending DelayedCall; `k` receives its id -/
 def callLater (delay : Rat) (kind : TKind) (k : Nat → Step) : Step :=
-  Step.read fun w =>
-    let tid := w.nextTimer
-    Step.mod (fun w => { w with timers := w.timers.set tid ⟨w.now + ticks delay, kind, .pending⟩,
-                                nextTimer := tid + 1 }) ;; k tid
+  Step.read fun w => Step.mod (fun w => (w.callLater delay kind).1) ;; k w.nextTimer
 
 /-- `DelayedCall.cancel()`: AlreadyCalled / AlreadyCancelled on a dead call -/
 def cancelTimer (tid : Nat) : Step :=
@@ -121,19 +125,11 @@ def buildProtocol (a : Nat) : Step :=
 
 /-! ### interval.py -/
 
-/-- Interval.__call__ on the request's interval object: returns the delay in seconds -/
-def intervalNext (rid : Nat) (k : Rat → Step) : Step :=
-  Step.read fun w =>
-    let r := w.req rid
-    let v := min (r.ivValue * Config.intervalFactor) (max r.initial Config.intervalMaxDelay)
-    setReq rid (fun r => { r with ivValue := v }) ;; k ((v : Rat) + w.jitter)
+/-- Interval.__call__ on the request's interval object: the new stored value -/
+def ivNextValue (r : Req) : Nat := min (r.ivValue * Config.intervalFactor) (max r.initial Config.intervalMaxDelay)
 
-/-- IntervalLinear.__call__(size) -/
-def intervalLinearNext (rid : Nat) (size : Nat) (k : Rat → Step) : Step :=
-  Step.read fun w =>
-    let r := w.req rid
-    let v : Rat := (r.initial : Rat) + (r.ivK * size) / r.bandwith
-    setReq rid (fun r => { r with ivK := r.ivK * r.factor }) ;; k (v + w.jitter)
+/-- IntervalLinear.__call__(size): the delay net of jitter -/
+def linValue (r : Req) (size : Nat) : Rat := (r.initial : Rat) + (r.ivK * size) / r.bandwith
 
 /-! ### dispatch through the state objects (base.py:94-251 and the per-profile state classes) -/
 
@@ -158,55 +154,60 @@ def clearDup (bs : Bytes) : Bytes :=
   | [] => []
   | h :: r => (h &&& 0xF7) :: r
 
-/-- MQTTProtocol._retryPublish(request, dup) run by protocol `p` -/
-def retryPublish (p rid : Nat) (dup : Bool) : Step :=
-  setReq rid (fun r => { r with encoded := patchDup r.encoded dup }) ;;
-  Step.read fun w =>
-    let r := w.req rid
-    (if r.msgId ≠ 0 then
-      intervalLinearNext rid r.encoded.length fun d =>
-        callLater d (.retry p rid) fun tid => setReq rid (fun r => { r with alarm := some tid })
-     else Step.ok) ;;
-    write p r.encoded
+/-- MQTTProtocol._retryPublish(request, dup) run by protocol `p` (never raises) -/
+def retryPublishW (p rid : Nat) (dup : Bool) (w : World) : World :=
+  let w1 := w.setReq rid fun r => { r with encoded := patchDup r.encoded dup }
+  let r := w1.req rid
+  let w4 :=
+    if r.msgId ≠ 0 then
+      -- request.interval(len(request.encoded)); callLater; request.alarm = ...
+      let w2 := w1.setReq rid fun r => { r with ivK := r.ivK * r.factor }
+      let (w3, tid) := w2.callLater (linValue r r.encoded.length + w1.jitter) (.retry p rid)
+      w3.setReq rid fun r => { r with alarm := some tid }
+    else w1
+  w4.emit (.write p r.encoded)
+
+def retryPublish (p rid : Nat) (dup : Bool) : Step := Step.mod (retryPublishW p rid dup)
 
 /-- MQTTProtocol._retryRelease(reply, dup) -/
-def retryRelease (p rid : Nat) (dup : Bool) : Step :=
-  Step.read fun w =>
-    (if (w.proto p).version = v31 then setReq rid (fun r => { r with encoded := patchDup r.encoded dup })
-     else setReq rid (fun r => { r with encoded := clearDup r.encoded })) ;;
-    intervalNext rid fun d =>
-      callLater d (.retry p rid) fun tid =>
-        setReq rid (fun r => { r with alarm := some tid }) ;;
-        Step.read fun w => write p (w.req rid).encoded
+def retryReleaseW (p rid : Nat) (dup : Bool) (w : World) : World :=
+  let w1 := if (w.proto p).version = v31 then w.setReq rid fun r => { r with encoded := patchDup r.encoded dup }
+            else w.setReq rid fun r => { r with encoded := clearDup r.encoded }
+  let v := ivNextValue (w1.req rid)
+  let w2 := w1.setReq rid fun r => { r with ivValue := v }
+  let (w3, tid) := w2.callLater ((v : Rat) + w1.jitter) (.retry p rid)
+  let w4 := w3.setReq rid fun r => { r with alarm := some tid }
+  w4.emit (.write p (w4.req rid).encoded)
+
+def retryRelease (p rid : Nat) (dup : Bool) : Step := Step.mod (retryReleaseW p rid dup)
 
 /-- MQTTProtocol._retrySubscribe / _retryUnsubscribe (they differ only in the window counted) -/
-def retrySubUnsub (p rid : Nat) (dup : Bool) (isSub : Bool) : Step :=
-  Step.read fun w =>
-    (if (w.proto p).version = v31 then setReq rid (fun r => { r with encoded := patchDup r.encoded dup }) else Step.ok) ;;
-    intervalNext rid fun d =>
-      Step.read fun w =>
-        let n := Ents.count w.ents (w.paddr p) (if isSub then .sub else .unsub)
-        callLater (d + (1 / 4 : Rat) * n) (.retry p rid) fun tid =>
-          setReq rid (fun r => { r with alarm := some tid }) ;;
-          Step.read fun w => write p (w.req rid).encoded
+def retrySubUnsubW (p rid : Nat) (dup : Bool) (isSub : Bool) (w : World) : World :=
+  let w1 := if (w.proto p).version = v31 then w.setReq rid fun r => { r with encoded := patchDup r.encoded dup } else w
+  let v := ivNextValue (w1.req rid)
+  let w2 := w1.setReq rid fun r => { r with ivValue := v }
+  let n := Ents.count w2.ents (w2.paddr p) (if isSub then .sub else .unsub)
+  let (w3, tid) := w2.callLater ((v : Rat) + w1.jitter + (1 / 4 : Rat) * n) (.retry p rid)
+  let w4 := w3.setReq rid fun r => { r with alarm := some tid }
+  w4.emit (.write p (w4.req rid).encoded)
 
-/-- MQTTProtocol._refillPublish(dup): `while queue and len(windowPublish) < self._window` -/
-def refillPublish (p : Nat) (dup : Bool) : Nat → Step
-  | 0 => Step.ok
-  | fuel + 1 => Step.read fun w =>
+def retrySubUnsub (p rid : Nat) (dup : Bool) (isSub : Bool) : Step := Step.mod (retrySubUnsubW p rid dup isSub)
+
+/-- MQTTProtocol._refillPublish(dup): `while queue and len(windowPublish) < self._window` (never raises) -/
+def refillW (p : Nat) (dup : Bool) : Nat → World → World
+  | 0, w => w
+  | fuel + 1, w =>
     let a := w.paddr p
     match Ents.items w.ents a .queue with
-    | [] => Step.ok
+    | [] => w
     | e :: _ =>
       if Ents.count w.ents a .pub < (w.proto p).window then
-        setEnts (fun es => Ents.dropFirst es a .queue) ;;
-        (if (w.req e.rid).msgId ≠ 0 then setEnts (fun es => Ents.insert es a .pub (w.req e.rid).msgId e.rid)
-         else Step.ok) ;;
-        retryPublish p e.rid dup ;;
-        refillPublish p dup fuel
-      else Step.ok
+        let w1 := w.setEnts fun es => Ents.dropFirst es a .queue
+        let w2 := if (w.req e.rid).msgId ≠ 0 then w1.setEnts fun es => Ents.insert es a .pub (w.req e.rid).msgId e.rid else w1
+        refillW p dup fuel (retryPublishW p e.rid dup w2)
+      else w
 
-def refill (p : Nat) : Step := Step.read fun w => refillPublish p false (Ents.count w.ents (w.paddr p) .queue)
+def refill (p : Nat) : Step := Step.mod fun w => refillW p false (Ents.count w.ents (w.paddr p) .queue) w
 
 /-- MQTTProtocol._deliver -/
 def deliver (p : Nat) (m : RxMsg) : Step :=
@@ -226,14 +227,14 @@ def purgeWindow (p : Nat) (rel : Bool) (reason : Err) : Step :=
 def purgeSession (p : Nat) (reason : Err) : Step :=
   purgeWindow p false reason ;; purgeWindow p true reason
 
-/-- MQTTProtocol._syncSession -/
-def syncSession (p : Nat) : Step :=
-  Step.read fun w =>
-    (forEach (Ents.items w.ents (w.paddr p) .rel) fun e =>
-      Step.read fun w => if (w.req e.rid).alarm = none then retryRelease p e.rid true else Step.ok) ;;
-    Step.read fun w =>
-    (forEach (Ents.items w.ents (w.paddr p) .pub) fun e =>
-      Step.read fun w => if (w.req e.rid).alarm = none then retryPublish p e.rid true else Step.ok)
+/-- MQTTProtocol._syncSession (never raises): inherited PUBRELs, then inherited PUBLISHes, those without a running alarm -/
+def syncW (p : Nat) (w : World) : World :=
+  let w1 := (Ents.items w.ents (w.paddr p) .rel).foldl
+    (fun w e => if (w.req e.rid).alarm = none then retryReleaseW p e.rid true w else w) w
+  (Ents.items w1.ents (w1.paddr p) .pub).foldl
+    (fun w e => if (w.req e.rid).alarm = none then retryPublishW p e.rid true w else w) w1
+
+def syncSession (p : Nat) : Step := Step.mod (syncW p)
 
 /-- MQTTProtocol.mqttConnectionMade -/
 def mqttConnectionMade (p : Nat) : Step :=
